@@ -263,7 +263,13 @@ macro_rules! dimacs_runner {
                         ($clause)(&mut s, &c);
                         on_item(&s);
                     }
-                    Ok(None) => return Outcome::End,
+                    Ok(None) => {
+                        // the end is final: asking again must not produce another clause
+                        if let Ok(Some(_)) = p.next_clause() {
+                            on_item("ITEM-AFTER-THE-END-WAS-REPORTED");
+                        }
+                        return Outcome::End;
+                    }
                     Err(e) => return cnf_err(e),
                 }
             }
@@ -476,7 +482,13 @@ fn run_aag<L: flussab_aiger::Lit + Display>(
     let mode = (skip >> 0) & 3;
     let mut n = 0;
     while mode != 2 {
-        let Some(x) = tri!(r.next_input()) else { break };
+        let Some(x) = tri!(r.next_input()) else {
+            // the end of a section is final
+            if let Ok(Some(_)) = r.next_input() {
+                on_item("ITEM-AFTER-THE-END-OF-THE-SECTION-WAS-REPORTED");
+            }
+            break;
+        };
         emit!(on_item, s, "IN {}", x);
         n += 1;
         if mode == 1 && n >= 1 {
@@ -487,7 +499,13 @@ fn run_aag<L: flussab_aiger::Lit + Display>(
     let mode = (skip >> 2) & 3;
     let mut n = 0;
     while mode != 2 {
-        let Some(l) = tri!(r.next_latch()) else { break };
+        let Some(l) = tri!(r.next_latch()) else {
+            // the end of a section is final
+            if let Ok(Some(_)) = r.next_latch() {
+                on_item("ITEM-AFTER-THE-END-OF-THE-SECTION-WAS-REPORTED");
+            }
+            break;
+        };
         emit!(on_item, s, "LATCH {} {} {}", l.state, l.next_state, init_str(l.initialization));
         n += 1;
         if mode == 1 && n >= 1 {
@@ -498,7 +516,13 @@ fn run_aag<L: flussab_aiger::Lit + Display>(
     let mode = (skip >> 4) & 3;
     let mut n = 0;
     while mode != 2 {
-        let Some(x) = tri!(r.next_output()) else { break };
+        let Some(x) = tri!(r.next_output()) else {
+            // the end of a section is final
+            if let Ok(Some(_)) = r.next_output() {
+                on_item("ITEM-AFTER-THE-END-OF-THE-SECTION-WAS-REPORTED");
+            }
+            break;
+        };
         emit!(on_item, s, "OUT {}", x);
         n += 1;
         if mode == 1 && n >= 1 {
@@ -509,7 +533,13 @@ fn run_aag<L: flussab_aiger::Lit + Display>(
     let mode = (skip >> 6) & 3;
     let mut n = 0;
     while mode != 2 {
-        let Some(x) = tri!(r.next_bad_state_property()) else { break };
+        let Some(x) = tri!(r.next_bad_state_property()) else {
+            // the end of a section is final
+            if let Ok(Some(_)) = r.next_bad_state_property() {
+                on_item("ITEM-AFTER-THE-END-OF-THE-SECTION-WAS-REPORTED");
+            }
+            break;
+        };
         emit!(on_item, s, "BAD {}", x);
         n += 1;
         if mode == 1 && n >= 1 {
@@ -520,7 +550,13 @@ fn run_aag<L: flussab_aiger::Lit + Display>(
     let mode = (skip >> 8) & 3;
     let mut n = 0;
     while mode != 2 {
-        let Some(x) = tri!(r.next_invariant_constraint()) else { break };
+        let Some(x) = tri!(r.next_invariant_constraint()) else {
+            // the end of a section is final
+            if let Ok(Some(_)) = r.next_invariant_constraint() {
+                on_item("ITEM-AFTER-THE-END-OF-THE-SECTION-WAS-REPORTED");
+            }
+            break;
+        };
         emit!(on_item, s, "CONSTR {}", x);
         n += 1;
         if mode == 1 && n >= 1 {
@@ -531,7 +567,13 @@ fn run_aag<L: flussab_aiger::Lit + Display>(
     let mode = (skip >> 10) & 3;
     let mut n = 0;
     while mode != 2 {
-        let Some(x) = tri!(r.next_justice_property_size()) else { break };
+        let Some(x) = tri!(r.next_justice_property_size()) else {
+            // the end of a section is final
+            if let Ok(Some(_)) = r.next_justice_property_size() {
+                on_item("ITEM-AFTER-THE-END-OF-THE-SECTION-WAS-REPORTED");
+            }
+            break;
+        };
         emit!(on_item, s, "JSIZE {}", x);
         n += 1;
         if mode == 1 && n >= 1 {
@@ -542,7 +584,13 @@ fn run_aag<L: flussab_aiger::Lit + Display>(
     let mode = (skip >> 12) & 3;
     let mut n = 0;
     while mode != 2 {
-        let Some(x) = tri!(r.next_justice_property_local_fairness_constraint()) else { break };
+        let Some(x) = tri!(r.next_justice_property_local_fairness_constraint()) else {
+            // the end of a section is final
+            if let Ok(Some(_)) = r.next_justice_property_local_fairness_constraint() {
+                on_item("ITEM-AFTER-THE-END-OF-THE-SECTION-WAS-REPORTED");
+            }
+            break;
+        };
         emit!(on_item, s, "JLIT {}", x);
         n += 1;
         if mode == 1 && n >= 1 {
@@ -553,7 +601,13 @@ fn run_aag<L: flussab_aiger::Lit + Display>(
     let mode = (skip >> 14) & 3;
     let mut n = 0;
     while mode != 2 {
-        let Some(x) = tri!(r.next_fairness_constraint()) else { break };
+        let Some(x) = tri!(r.next_fairness_constraint()) else {
+            // the end of a section is final
+            if let Ok(Some(_)) = r.next_fairness_constraint() {
+                on_item("ITEM-AFTER-THE-END-OF-THE-SECTION-WAS-REPORTED");
+            }
+            break;
+        };
         emit!(on_item, s, "FAIR {}", x);
         n += 1;
         if mode == 1 && n >= 1 {
@@ -564,7 +618,13 @@ fn run_aag<L: flussab_aiger::Lit + Display>(
     let mode = (skip >> 16) & 3;
     let mut n = 0;
     while mode != 2 {
-        let Some(g) = tri!(r.next_and_gate()) else { break };
+        let Some(g) = tri!(r.next_and_gate()) else {
+            // the end of a section is final
+            if let Ok(Some(_)) = r.next_and_gate() {
+                on_item("ITEM-AFTER-THE-END-OF-THE-SECTION-WAS-REPORTED");
+            }
+            break;
+        };
         emit!(on_item, s, "AND {} {} {}", g.output, g.inputs[0], g.inputs[1]);
         n += 1;
         if mode == 1 && n >= 1 {
@@ -654,7 +714,13 @@ fn run_aig<L: flussab_aiger::Lit + Display>(
     let mode = (skip >> 2) & 3;
     let mut n = 0;
     while mode != 2 {
-        let Some(l) = tri!(r.next_latch()) else { break };
+        let Some(l) = tri!(r.next_latch()) else {
+            // the end of a section is final
+            if let Ok(Some(_)) = r.next_latch() {
+                on_item("ITEM-AFTER-THE-END-OF-THE-SECTION-WAS-REPORTED");
+            }
+            break;
+        };
         emit!(on_item, s, "LATCH {} {}", l.next_state, init_str(l.initialization));
         n += 1;
         if mode == 1 && n >= 1 {
@@ -665,7 +731,13 @@ fn run_aig<L: flussab_aiger::Lit + Display>(
     let mode = (skip >> 4) & 3;
     let mut n = 0;
     while mode != 2 {
-        let Some(x) = tri!(r.next_output()) else { break };
+        let Some(x) = tri!(r.next_output()) else {
+            // the end of a section is final
+            if let Ok(Some(_)) = r.next_output() {
+                on_item("ITEM-AFTER-THE-END-OF-THE-SECTION-WAS-REPORTED");
+            }
+            break;
+        };
         emit!(on_item, s, "OUT {}", x);
         n += 1;
         if mode == 1 && n >= 1 {
@@ -676,7 +748,13 @@ fn run_aig<L: flussab_aiger::Lit + Display>(
     let mode = (skip >> 6) & 3;
     let mut n = 0;
     while mode != 2 {
-        let Some(x) = tri!(r.next_bad_state_property()) else { break };
+        let Some(x) = tri!(r.next_bad_state_property()) else {
+            // the end of a section is final
+            if let Ok(Some(_)) = r.next_bad_state_property() {
+                on_item("ITEM-AFTER-THE-END-OF-THE-SECTION-WAS-REPORTED");
+            }
+            break;
+        };
         emit!(on_item, s, "BAD {}", x);
         n += 1;
         if mode == 1 && n >= 1 {
@@ -687,7 +765,13 @@ fn run_aig<L: flussab_aiger::Lit + Display>(
     let mode = (skip >> 8) & 3;
     let mut n = 0;
     while mode != 2 {
-        let Some(x) = tri!(r.next_invariant_constraint()) else { break };
+        let Some(x) = tri!(r.next_invariant_constraint()) else {
+            // the end of a section is final
+            if let Ok(Some(_)) = r.next_invariant_constraint() {
+                on_item("ITEM-AFTER-THE-END-OF-THE-SECTION-WAS-REPORTED");
+            }
+            break;
+        };
         emit!(on_item, s, "CONSTR {}", x);
         n += 1;
         if mode == 1 && n >= 1 {
@@ -698,7 +782,13 @@ fn run_aig<L: flussab_aiger::Lit + Display>(
     let mode = (skip >> 10) & 3;
     let mut n = 0;
     while mode != 2 {
-        let Some(x) = tri!(r.next_justice_property_size()) else { break };
+        let Some(x) = tri!(r.next_justice_property_size()) else {
+            // the end of a section is final
+            if let Ok(Some(_)) = r.next_justice_property_size() {
+                on_item("ITEM-AFTER-THE-END-OF-THE-SECTION-WAS-REPORTED");
+            }
+            break;
+        };
         emit!(on_item, s, "JSIZE {}", x);
         n += 1;
         if mode == 1 && n >= 1 {
@@ -709,7 +799,13 @@ fn run_aig<L: flussab_aiger::Lit + Display>(
     let mode = (skip >> 12) & 3;
     let mut n = 0;
     while mode != 2 {
-        let Some(x) = tri!(r.next_justice_property_local_fairness_constraint()) else { break };
+        let Some(x) = tri!(r.next_justice_property_local_fairness_constraint()) else {
+            // the end of a section is final
+            if let Ok(Some(_)) = r.next_justice_property_local_fairness_constraint() {
+                on_item("ITEM-AFTER-THE-END-OF-THE-SECTION-WAS-REPORTED");
+            }
+            break;
+        };
         emit!(on_item, s, "JLIT {}", x);
         n += 1;
         if mode == 1 && n >= 1 {
@@ -720,7 +816,13 @@ fn run_aig<L: flussab_aiger::Lit + Display>(
     let mode = (skip >> 14) & 3;
     let mut n = 0;
     while mode != 2 {
-        let Some(x) = tri!(r.next_fairness_constraint()) else { break };
+        let Some(x) = tri!(r.next_fairness_constraint()) else {
+            // the end of a section is final
+            if let Ok(Some(_)) = r.next_fairness_constraint() {
+                on_item("ITEM-AFTER-THE-END-OF-THE-SECTION-WAS-REPORTED");
+            }
+            break;
+        };
         emit!(on_item, s, "FAIR {}", x);
         n += 1;
         if mode == 1 && n >= 1 {
@@ -731,7 +833,13 @@ fn run_aig<L: flussab_aiger::Lit + Display>(
     let mode = (skip >> 16) & 3;
     let mut n = 0;
     while mode != 2 {
-        let Some(g) = tri!(r.next_and_gate()) else { break };
+        let Some(g) = tri!(r.next_and_gate()) else {
+            // the end of a section is final
+            if let Ok(Some(_)) = r.next_and_gate() {
+                on_item("ITEM-AFTER-THE-END-OF-THE-SECTION-WAS-REPORTED");
+            }
+            break;
+        };
         emit!(on_item, s, "AND {} {}", g.inputs[0], g.inputs[1]);
         n += 1;
         if mode == 1 && n >= 1 {
@@ -910,7 +1018,12 @@ fn run_btor2(ctor: Ctor, src: Src, on_item: &mut dyn FnMut(&str)) -> Outcome {
                 btor_line_str(&mut s, &line);
                 on_item(&s);
             }
-            Ok(None) => return Outcome::End,
+            Ok(None) => {
+                if let Ok(Some(_)) = p.next_line() {
+                    on_item("ITEM-AFTER-THE-END-WAS-REPORTED");
+                }
+                return Outcome::End;
+            }
             Err(e) => return btor_err(e),
         }
     }
